@@ -43,6 +43,12 @@ class Models:
         self.P = prog
         self.ifunc_sets = ifunc_sets or {}
         self.alts = {}          # ADT path -> (fn key, union field): chosen pairing alternative
+        from . import unionpair
+        self.pair_table = set(unionpair.TARGETS)
+        self.pair_reads = {}
+        for inst in prog.local_instances():
+            if inst.has_body and ('searcher_kind_' in inst.path or 'prefilter_kind_' in inst.path):
+                self.pair_reads[inst.key] = unionpair.union_reads(prog, inst)
         self.e3 = e3
         self.table = []
         self.cache = {}
@@ -235,18 +241,80 @@ class Models:
         return None
 
     def on_aggregate(self, I, fr, st, rv, val, loc):
-        p = rv.get('path', '')
+        """TYINV: every construction of a type that carries an invariant must establish it"""
+        self.check_invariant(I, fr, st, rv['ty'], val, loc, 'construction')
+
+    def check_invariant(self, I, fr, st, tid, val, loc, when):
+        if isinstance(tid, tuple) or not isinstance(val, AdtV) or val.fields is None:
+            return
+        T = I.P.types
+        ty = T[tid]
+        p = ty.get('path', '')
         if p in ('arch::generic::memchr::One', 'arch::generic::memchr::Two', 'arch::generic::memchr::Three'):
-            ty = I.P.types[rv['ty']]
             fields = ty['variants'][0]['fields']
-            ints = {f['name'][1:]: val.fields[i] for i, f in enumerate(fields) if I.P.types[f['ty']]['kind'] == 'int'}
+            ints = {f['name'][1:]: val.fields[i] for i, f in enumerate(fields) if T[f['ty']]['kind'] == 'int'}
             for i, f in enumerate(fields):
-                if I.P.types[f['ty']]['kind'] != 'int':
-                    s = ints.get(f['name'][1:])
+                if T[f['ty']]['kind'] != 'int':
+                    sv = ints.get(f['name'][1:])
                     v = val.fields[i]
-                    ok = isinstance(v, TermV) and isinstance(s, IntV) and v.t[0] == 'splat' and st.store.entails_eq(v.t[1] - s.e)
-                    I.ob('TYINV', fr, loc, f'splat-field-{f["name"]}', ok,
+                    ok = isinstance(v, TermV) and isinstance(sv, IntV) and v.t[0] == 'splat' and st.store.entails_eq(v.t[1] - sv.e)
+                    I.ob('TYINV', fr, loc, f'I-SPLAT {p.rsplit("::", 1)[1]}.{f["name"]} ({when})', ok,
                          '' if ok else f"field {f['name']} is not splat of its scalar sibling: {v}")
+        elif p == 'arch::generic::memchr::Iter':
+            ptrs = [v for v in val.fields if isinstance(v, PtrV)]
+            ok = len(ptrs) == 3 and len({q.r for q in ptrs}) == 1
+            if ok:
+                reg = I.regions[ptrs[0].r]
+                ok = (st.store.entails_le(-ptrs[0].off) and st.store.entails_le(ptrs[0].off - ptrs[1].off)
+                      and st.store.entails_le(ptrs[1].off - ptrs[2].off) and st.store.entails_le(ptrs[2].off - V(reg.L)))
+            I.ob('TYINV', fr, loc, f'I-ITER original_start <= start <= end within the haystack ({when})', ok,
+                 '' if ok else f"cannot prove the iterator window invariant: {val}")
+        elif p == 'arch::generic::packedpair::Finder':
+            fields = ty['variants'][0]['fields']
+            vbytes, mhl, pair_v = None, None, None
+            for i, f in enumerate(fields):
+                ft = T[f['ty']]
+                if ft['kind'] == 'adt' and ft.get('simd'):
+                    vbytes = ft.get('size')
+                elif ft['kind'] == 'int':
+                    mhl = val.fields[i]
+                elif ft['kind'] == 'adt':
+                    pair_v = val.fields[i]
+            ok = bool(vbytes) and isinstance(mhl, IntV) and isinstance(pair_v, AdtV) and pair_v.fields is not None
+            bad = []
+            if ok:
+                for j, x in enumerate(pair_v.fields):
+                    if isinstance(x, IntV):
+                        if not st.store.entails_le(x.e + vbytes - mhl.e):
+                            bad.append(f"index{j + 1} + {vbytes} <= min_haystack_len")
+                    else:
+                        bad.append(f"index{j + 1} untracked")
+            I.ob('TYINV', fr, loc, f'I-PP min_haystack_len >= max(index1, index2) + V::BYTES ({when})', ok and not bad,
+                 '' if ok and not bad else 'cannot prove ' + ', '.join(bad or ['(untracked fields)']))
+        elif p in self.pair_table:
+            fields = ty['variants'][0]['fields']
+            fnv, uv = None, None
+            for i, f in enumerate(fields):
+                ft = T[f['ty']]
+                if ft['kind'] == 'fnptr':
+                    fnv = val.fields[i]
+                elif ft['kind'] == 'adt' and ft.get('adt_kind') == 'union':
+                    uv = val.fields[i]
+            if isinstance(fnv, FnV) and fnv.fns is None and isinstance(uv, UnionV) and uv.active is None:
+                return      # fully abstract value (result of a cut call): its producer's own root proves the pairing
+            ok = isinstance(fnv, FnV) and fnv.fns is not None and len(fnv.fns) == 1 and isinstance(uv, UnionV) and uv.active is not None
+            det = ''
+            if ok:
+                fk = next(iter(fnv.fns))
+                reads = self.pair_reads.get(fk, set())
+                upath = T[uv.tid]['path']
+                want = {(upath, uv.active)}
+                rd = {r for r in reads if r[0] == upath}
+                ok = rd <= want          # the function reads no union field other than the active one
+                det = f"`call` = {fk.rsplit('::', 1)[1]} reads union fields {sorted(i for _, i in rd)}, active field is {uv.active}"
+            else:
+                det = f"call = {fnv}, kind = {uv}: not a single function paired with one written union field"
+            I.ob('TYINV', fr, loc, f'UNION-PAIR {p.rsplit("::", 1)[1]} call/kind ({when})', ok, det)
 
     def term_binop(self, I, st, op, a, b, rty):
         return I.fresh_int(st, rty, 'tbin')
@@ -306,7 +374,8 @@ class Models:
             for (n, tt), val in preds.items():
                 if n == 'nz' and val and tt[0] in ('or', 'mor'):
                     lv = nz_leaves(tt)
-                    if t in lv and all(x == t or nz_eval(preds, x) is False for x in lv):
+                    lt = set(nz_leaves(t))
+                    if lt <= set(lv) and all(x in lt or nz_eval(preds, x) is False for x in lv):
                         return True
         return False
 
